@@ -363,7 +363,7 @@ func ParseAndValidateRequestBody(ctx *fasthttp.RequestCtx) (*structs.SearchReque
 	}
 
 	searchRequestBody := &structs.SearchRequestBody{}
-	if err := json.Unmarshal(ctx.PostBody(), &searchRequestBody); err != nil {
+	if err := json.Unmarshal(ctx.PostBody(), searchRequestBody); err != nil {
 		return nil, nil, err
 	}
 
@@ -1003,7 +1003,7 @@ func ProcessGanttChartRequest(ctx *fasthttp.RequestCtx, myid int64) {
 
 	// Parse the JSON data from ctx.PostBody
 	searchRequestBody := &structs.SearchRequestBody{}
-	if err := json.Unmarshal(ctx.PostBody(), &searchRequestBody); err != nil {
+	if err := json.Unmarshal(ctx.PostBody(), searchRequestBody); err != nil {
 		writeErrMsg(ctx, "ProcessGanttChartRequest", "could not unmarshal json body", err)
 		return
 	}
